@@ -8,6 +8,7 @@ import (
 	"time"
 
 	ae "github.com/godaddy/asherah/go/appencryption"
+	"github.com/godaddy/asherah/go/appencryption/pkg/persistence"
 
 	"asherahverif/doubles"
 	"asherahverif/explore"
@@ -290,7 +291,7 @@ func c14Scenarios(thorough bool) []c14Scenario {
 
 // CheckC14 explores every scenario with preemptions placed at metastore / KMS calls.
 func CheckC14(r *Report) {
-	r.Rule = "N processes (goroutine + own factory, caches, secret factory) sharing one spy metastore and KMS each perform 1-2 encrypts from cold / SK-only / expired / revoked-IK / revoked-SK start states; every interleaving at the granularity of metastore and KMS calls (context switches only at external calls and at blocking points; unbounded number of them for 2 processes) plus optionally one precision-bucket crossing of the clock; non-trivial = complete interleavings in which both processes touched the metastore"
+	r.Rule = "N processes (goroutine + own factory, caches, secret factory) sharing one spy metastore and KMS each perform 1-2 encrypts from cold / SK-only / expired / revoked-IK / revoked-SK start states; every interleaving at the granularity of metastore and KMS calls (context switches only at external calls and at blocking points; unbounded number of them for 2 processes) plus optionally one precision-bucket crossing of the clock; the same 2-process race over the SDK's own instrumented MemoryMetastore with <= 2 preemptions at any synchronisation point (also inside its Store / Load bodies); non-trivial = complete interleavings in which both processes touched the metastore"
 	for _, sc := range c14Scenarios(r.Thorough()) {
 		sc := sc
 		if !r.TimeLeft() {
@@ -321,5 +322,197 @@ func CheckC14(r *Report) {
 		}
 		r.AddExplore(res, b, time.Since(t0).Seconds())
 		r.DistinctNontrivial += res.Complete - res.Conflicting // all complete interleavings share the store; count them all
+	}
+	// the same race over the SDK's own in-memory metastore, preemptions anywhere (also inside its Store / Load bodies)
+	mem := []string{"cold"}
+	if r.Thorough() {
+		mem = append(mem, "expired")
+	}
+	for _, st := range mem {
+		if !r.TimeLeft() {
+			r.Exhaustive = false
+			r.Caps = append(r.Caps, "mem-2p-"+st+": not started (time budget)")
+			continue
+		}
+		t0 := time.Now()
+		cfg := explore.Config{Name: "C14/mem-2p-" + st, Preemptions: 2, HBCache: true, Deadline: r.Deadline, MaxViolations: 50}
+		res := explore.Explore(cfg, c14MemBody(st, 2))
+		seen := map[string]bool{}
+		var keep []explore.Violation
+		for _, v := range res.Violations {
+			if !seen[v.Sig] {
+				seen[v.Sig] = true
+				keep = append(keep, v)
+			}
+		}
+		res.Violations = keep
+		r.AddExplore(res, "preemptions <= 2 at any synchronisation / external call", time.Since(t0).Seconds())
+		r.DistinctNontrivial += res.Complete - res.Conflicting
+	}
+}
+
+// ---------------------------------------------------------------------------------
+// C14 over the SDK's own in-memory metastore: the same racing processes, but the shared
+// store is the real (instrumented) persistence.MemoryMetastore, so the interleavings
+// also cut through its Store / Load bodies (its lock operations are scheduling points).
+// ---------------------------------------------------------------------------------
+
+type c14MemCall struct {
+	Op      string
+	ID      string
+	Created int64
+	Rec     *ae.EnvelopeKeyRecord
+	OK      bool
+	Thread  int
+}
+
+type c14MemStore struct {
+	mm    *persistence.MemoryMetastore
+	calls []c14MemCall
+}
+
+func (s *c14MemStore) Load(c ctxT, id string, created int64) (*ae.EnvelopeKeyRecord, error) {
+	r, err := s.mm.Load(c, id, created)
+	defer vsched.LockDoubles()()
+	s.calls = append(s.calls, c14MemCall{"Load", id, created, r, r != nil, vsched.CurThread()})
+	return r, err
+}
+func (s *c14MemStore) LoadLatest(c ctxT, id string) (*ae.EnvelopeKeyRecord, error) {
+	r, err := s.mm.LoadLatest(c, id)
+	cr := int64(0)
+	if r != nil {
+		cr = r.Created
+	}
+	defer vsched.LockDoubles()()
+	s.calls = append(s.calls, c14MemCall{"LoadLatest", id, cr, r, r != nil, vsched.CurThread()})
+	return r, err
+}
+func (s *c14MemStore) Store(c ctxT, id string, created int64, r *ae.EnvelopeKeyRecord) (bool, error) {
+	ok, err := s.mm.Store(c, id, created, r)
+	defer vsched.LockDoubles()()
+	s.calls = append(s.calls, c14MemCall{"Store", id, created, r, ok, vsched.CurThread()})
+	return ok, err
+}
+
+func c14MemBody(start string, nprocs int) explore.Body {
+	return func(c *explore.Ctx) {
+		vsched.BeginQuiet()
+		reg := doubles.NewKeyRegistry()
+		st := &c14MemStore{mm: persistence.NewMemoryMetastore()}
+		kms := doubles.NewSpyKMS()
+		procs := make([]*c14Proc, nprocs)
+		for i := range procs {
+			p := &c14Proc{tf: doubles.NewTrackFactoryShared(reg, fmt.Sprintf("P%d", i+1))}
+			p.aead = doubles.NewSpyAEAD(p.tf)
+			p.f = ae.NewSessionFactory(&ae.Config{Service: "s", Product: "p", Policy: SpecDefault.Build()}, st, kms, p.aead, ae.WithSecretFactory(p.tf))
+			p.s, _ = p.f.GetSession("A")
+			procs[i] = p
+		}
+		if start == "expired" {
+			for _, p := range procs {
+				if _, err := p.s.Encrypt(ctx, []byte("warm")); err != nil {
+					panic(fmt.Sprintf("C14 set-up: %v", err))
+				}
+			}
+			vclock.Advance((E + 1) * time.Second)
+		}
+		before := map[string]*ae.EnvelopeKeyRecord{}
+		for id, byC := range st.mm.Envelopes {
+			for cr, r := range byC {
+				before[rowKey(id, cr)] = r
+			}
+		}
+		callsFrom := len(st.calls)
+		vsched.EndQuiet()
+		for i, p := range procs {
+			i, p := i, p
+			vsched.GoNamed(fmt.Sprintf("proc%d", i+1), func() {
+				var rec *ae.DataRowRecord
+				var err error
+				pan := safe(func() { rec, err = p.s.Encrypt(ctx, []byte(fmt.Sprintf("payload-P%d", i+1))) })
+				p.recs = append(p.recs, rec)
+				p.errs = append(p.errs, err)
+				p.pans = append(p.pans, pan)
+			})
+		}
+		vsched.Quiesce()
+		for i, p := range procs {
+			if len(p.recs) != 1 {
+				c.Failf("blocked", "process %d did not finish its encrypt; parked threads: %v", i+1, vsched.Blocked())
+				return
+			}
+		}
+		vsched.BeginQuiet()
+		defer vsched.EndQuiet()
+		trail := func() string {
+			var sb strings.Builder
+			for _, cl := range st.calls[callsFrom:] {
+				fmt.Fprintf(&sb, "T%d:%s(%s/%d)=%v; ", cl.Thread, cl.Op, cl.ID, cl.Created, cl.OK)
+			}
+			return sb.String()
+		}
+		// the store only grew: rows present before the race are the same records, and a Store that reported
+		// success is the only one that did for its (id, created) and its record is still the stored one
+		for k, r := range before {
+			parts := strings.SplitN(k, "/", 2)
+			if st.mm.Envelopes[parts[0]][atoi64(parts[1])] != r {
+				c.Failf("row-modified", "row %s was replaced or removed; calls: %s", k, trail())
+			}
+		}
+		won := map[string]int{}
+		for _, cl := range st.calls[callsFrom:] {
+			if cl.Op != "Store" || !cl.OK {
+				continue
+			}
+			k := rowKey(cl.ID, cl.Created)
+			won[k]++
+			if won[k] > 1 || before[k] != nil {
+				c.Failf("row-overwritten", "more than one Store of %s reported success (an existing key record was replaced); calls: %s", k, trail())
+			}
+		}
+		for _, cl := range st.calls[callsFrom:] {
+			if cl.Op == "Store" && cl.OK && won[rowKey(cl.ID, cl.Created)] == 1 && st.mm.Envelopes[cl.ID][cl.Created] != cl.Rec {
+				c.Failf("row-overwritten", "the record stored successfully as %s/%d is no longer the stored one; calls: %s", cl.ID, cl.Created, trail())
+			}
+		}
+		table := ref.Table{}
+		for id, byC := range st.mm.Envelopes {
+			table[id] = map[int64]*ref.KeyRecord{}
+			for cr, r := range byC {
+				kr := &ref.KeyRecord{Revoked: r.Revoked, Created: r.Created, Key: append([]byte(nil), r.EncryptedKey...)}
+				if r.ParentKeyMeta != nil {
+					kr.ParentKeyMeta = &ref.KeyMeta{KeyId: r.ParentKeyMeta.ID, Created: r.ParentKeyMeta.Created}
+				}
+				table[id][cr] = kr
+			}
+		}
+		var outcome []string
+		for i, p := range procs {
+			pl := []byte(fmt.Sprintf("payload-P%d", i+1))
+			switch {
+			case p.pans[0] != "":
+				c.Failf("panic", "process %d encrypt panicked: %s", i+1, p.pans[0])
+				continue
+			case p.errs[0] != nil:
+				c.Failf("encrypt-failed:"+errClass(p.errs[0]), "process %d encrypt failed although metastore and KMS are healthy: %v; calls: %s", i+1, p.errs[0], trail())
+				continue
+			}
+			rec := p.recs[0]
+			outcome = append(outcome, fmt.Sprintf("ik%d", rec.Key.ParentKeyMeta.Created))
+			if out, err := ref.Decrypt(table, kms.Unwrap, toRefRow(rec)); err != nil || !bytes.Equal(out, pl) {
+				c.Failf("reference-cannot-decrypt", "record of process %d cannot be decrypted from the metastore contents: %v; calls: %s", i+1, err, trail())
+			}
+			for j, q := range procs {
+				out, err := q.s.Decrypt(ctx, *cloneDRR(rec))
+				if err != nil || !bytes.Equal(out, pl) {
+					c.Failf("peer-cannot-decrypt", "process %d cannot decrypt the record of process %d: %v; calls: %s", j+1, i+1, err, trail())
+				}
+			}
+		}
+		c.Outcome(strings.Join(outcome, ","))
+		for _, p := range procs {
+			p.s.Close()
+			p.f.Close()
+		}
 	}
 }
